@@ -94,5 +94,22 @@ example (t0 : Text) : ∀ x ∈ [((0 : Path), ('a', 'x')), (0, ('b', 'y')), (1, 
     Agrees toy (runK toy (fun p => if p = 0 then some t0 else none) [(0, ('a', 'x')), (0, ('b', 'y')), (1, ('b', 'y'))]) x :=
   sync_all_agree toy toy_laws _ _ (by simp [Separate, toy])
 
+/-! ### why every step re-reads its file -/
+
+/-- a loop that parses every target file ONCE, before the first step, and lets each step work from that tree (what a
+    per-run cache of parsed modules does) -/
+def runStale (L : LayerK ToyM (Char × Char) Char) (fs0 : FS) (ts : List (Path × (Char × Char))) : FS :=
+  ts.foldl (fun fs pd => fs.set pd.1 (conformK L (fs0 pd.1) pd.2).1) fs0
+
+/-- one file holding a stale `b`; the first step appends `a`, the second rewrites `b` - from the tree read before `a`
+    was appended: `a` is gone again. The loop that re-reads (`runK`) keeps both. -/
+theorem stale_tree_loses_the_appended_definition :
+    let fs0 : FS := fun p => if p = 0 then some ['b', 'o'] else none
+    let ts : List (Path × (Char × Char)) := [(0, ('a', 'x')), (0, ('b', 'y'))]
+    toyFind 'a' (toyRead ((runStale toy fs0 ts 0).getD [])) = none ∧
+    toyFind 'a' (toyRead ((runK toy fs0 ts 0).getD [])) = some ('a', 'x') ∧
+    toyFind 'b' (toyRead ((runK toy fs0 ts 0).getD [])) = some ('b', 'y') := by
+  decide
+
 end GroundTruth
 end FsSync
